@@ -17,6 +17,10 @@ B_THOROUGH = B_QUICK + ['x64-soft', 'x64-alt1', 'x64-alt2', 'x64-aesni-all', 'a6
                         'x86-soft-all', 'x86-alt1-all']
 
 REGISTRY = {
+    'C03': dict(module='c03', level='other', technique='normalised-MIR equality across feature sets; global value numbering across the serpent_no_unroll configurations',
+                quick=['x64', 'x64-all', 'x64-alt1', 'x64-alt1-all'], thorough=['x64', 'x64-all', 'x64-alt1', 'x64-alt1-all', 'x64-soft', 'x64-soft-all', 'x64-alt2', 'x64-alt2-all', 'a64', 'a64-all', 'x86', 'x86-all']),
+    'C14': dict(module='c14', level='other', technique='delegation-shape and who-may-call rules over resolved monomorphic MIR',
+                quick=['x64-all'], thorough=['x64-all', 'a64-all', 'x86-all']),
     'C13': dict(module='c13', level='proof', technique='global value numbering of weak_key_test + bit-level reading of its single decision term against the NIST characterisation',
                 quick=['x64', 'x64-soft-all'], thorough=['x64', 'x64-soft-all', 'x64-alt1', 'a64', 'a64-soft-all', 'x86']),
     'C05': dict(module='c05', level='other', technique='global value numbering of constructors and block functions with DES helpers as uninterpreted functions, compared with the SP 800-67 composition terms',
